@@ -97,6 +97,7 @@ type gen struct {
 	nt       bool
 	hadRefs  bool
 	nFlushes int
+	xmode    bool     // complete-sequencer mode: steps are xistep, messages xmsg
 	batching bool     // loop mode: callbacks are collected into the current LUpdates batch
 	batch    []string // Coq text of the callbacks of the current batch
 	batchCbs []cbk    // the callbacks themselves (applied later, on the loop goroutine)
@@ -151,7 +152,11 @@ func (g *gen) do(c cbk) {
 		g.batchCbs = append(g.batchCbs, c)
 	} else {
 		applyCb(g.es, c)
-		g.steps = append(g.steps, "ICb ("+c.coq()+")")
+		if g.xmode {
+			g.steps = append(g.steps, "XICb (XCb ("+c.coq()+"))")
+		} else {
+			g.steps = append(g.steps, "ICb ("+c.coq()+")")
+		}
 	}
 	g.keys = append(g.keys, c.coq())
 	g.sample = append(g.sample, c.coq())
@@ -266,7 +271,13 @@ func (g *gen) flush() {
 	for _, m := range g.rec {
 		om, ok := msgToCoq(m)
 		if !ok {
+			if xs, xok := xmsgToCoq(m); g.xmode && xok {
+				ms = append(ms, xs)
+			}
 			continue
+		}
+		if g.xmode {
+			om.coq = "XBase (" + om.coq + ")"
 		}
 		ms = append(ms, om.coq)
 		switch om.kind {
@@ -280,7 +291,11 @@ func (g *gen) flush() {
 		g.nt = true
 		g.tags["flush:adds+removes"] = true
 	}
-	g.steps = append(g.steps, "IFlush ["+strings.Join(ms, "; ")+"]")
+	if g.xmode {
+		g.steps = append(g.steps, "XIFlush ["+strings.Join(ms, "; ")+"]")
+	} else {
+		g.steps = append(g.steps, "IFlush ["+strings.Join(ms, "; ")+"]")
+	}
 	g.keys = append(g.keys, "F")
 	g.sample = append(g.sample, fmt.Sprintf("Flush -> %d msgs", len(ms)))
 	g.last = g.w.clone()
@@ -304,7 +319,15 @@ func (g *gen) emit(enc *json.Encoder, ctor string) {
 	if len(smp) > 40 {
 		smp = smp[:40]
 	}
-	_ = enc.Encode(line{Coq: ctor + " [" + strings.Join(g.steps, "; ") + "]", NT: g.nt, Key: strings.Join(g.keys, ";"),
+	if ctor != "XSeq" {
+		ctor = "XOld (" + ctor
+		defer func() {}()
+	}
+	term := ctor + " [" + strings.Join(g.steps, "; ") + "]"
+	if strings.HasPrefix(ctor, "XOld (") {
+		term += ")"
+	}
+	_ = enc.Encode(line{Coq: term, NT: g.nt, Key: strings.Join(g.keys, ";"),
 		Sample: map[string]any{"trace": smp}, Tags: tags})
 }
 
